@@ -250,7 +250,9 @@ PROPS["C08"] = dict(
                 "net/http and fasthttp, with and without a bounded worker pool, and called through UseService proxies, a namespace proxy, or InvokeContext with a generated spelling "
                 "of the name under three client codec settings. Every generated call is also made locally: the recorder must show exactly one invocation of the same function with "
                 "equal arguments, results must equal the local results, and an induced error or panic must reach the caller as an error carrying the same message. Unknown names must "
-                "reach the missing-method handler when installed and be an error otherwise."),
+                "reach the missing-method handler when installed and be an error otherwise. The catalogue includes context-taking functions with interface, variadic, map and pointer "
+                "parameters (nil arguments) and names whose cased letters are not ASCII; one sub-check sends several calls of different functions through one caller context; "
+                "another has 2-12 callers on one client at once behind a one-worker pool."),
     level_note="The http client transport is net/http by default; the shard set with VERIF_HTTP_CLIENT=fasthttp uses the fasthttp client transport (the scheme registry is process-global).",
     rule=("remote-vs-local: rapid-drawn calls; non-trivial = at least one non-zero argument. Classes: transport x outcome (ok/error/panic), mode (proxy/invoke/ns), pool, function. "
           "missing-method: generated unknown names x handler installed or not. Distinct by case text."),
@@ -268,7 +270,7 @@ PROPS["C09"] = dict(
                 "order, mixing in responses for identifiers that are unused, far away, not yet issued or already answered, duplicates and text messages; callers must get their "
                 "own response, a second round on the same connection must succeed and the client must not have reconnected. (c) On UDP one call stays pending while 32767 more calls "
                 "wrap the 15-bit identifier and a second pending call is issued; both must get their own response in either release order. (d) Reverse calls: concurrent "
-                "Caller.InvokeContext against a real provider with gated functions, and against a scripted provider returning results in generated batches with unknown and "
+                "Caller.InvokeContext against a real provider with gated functions (some of which panic or fail with a message naming the call), and against a scripted provider returning results in generated batches with unknown and "
                 "repeated identifiers; and a forced interleaving (verif yield point in Caller.begin) in which calls are queued exactly while the provider's begin is between its queue "
                 "check and its registration. (e) Websocket connection churn (both servers): short-lived connections ended by the server or abandoned by the client while slow calls are "
                 "being answered, 8 at a time. One extra process per run executes (e) and the concurrent-caller sub-checks from a race-detector build, so a connection whose buffers are "
@@ -291,7 +293,8 @@ PROPS["C12"] = dict(
                 "windows in both directions. (c) different payloads in flight at once. (d) hand-made frames to the real server: every single-bit corruption of the socket and UDP "
                 "headers, every combination of declared/actual length on UDP after another client's long datagram, short socket bodies then close/half-close/stall, HTTP bodies shorter "
                 "than Content-Length and chunked bodies: nothing may be delivered unless consistent. (e) a scripted peer sends the real client corrupted or inconsistent responses: "
-                "the caller must get an error, never bytes."),
+                "the caller must get an error, never bytes. (f) A conforming websocket peer sends requests in fragments of 1-7 bytes and messages shorter than the index header. "
+                "(g) A caller gives up an 8 MiB request that a slow peer is still reading and reuses its buffer: the service side must receive the submitted bytes or nothing."),
     level_note="On stream sockets and HTTP a declared length smaller than what follows is not generated: the surplus is by definition the next message of the same sender.",
     rule=("round-trip: rapid-drawn (endpoint, lengths, content), non-trivial = non-empty message; every-length / header-bit / declared-length / http-bodies / client-side-frames: enumerated, all non-trivial. "
           "Classes: transport, content kind, multi-buffer sizes, over-datagram, declared smaller/larger/equal. Distinct by case text."),
@@ -325,7 +328,7 @@ PROPS["C11"] = dict(
                 "hand-made malformed frames, datagrams, websocket messages and HTTP requests from a peer of their own (short, bad checksum, lying lengths, error flag, a call in flight "
                 "followed by a broken frame) - is run on every transport it applies to (mock, tcp, unix, udp, websocket x2, http, fasthttp; worker pool 0/8; also behind the ExecuteTimeout and Oneway plugins) while a gated call of the same "
                 "client and one of another client are in flight: the faulty call must fail, the in-flight calls must complete (the same client's only unless the fault may cost its "
-                "connection), calls issued afterwards on both clients must succeed, and the process must survive. rapid draws sequences and bursts of faults per endpoint; small worker pools "
+                "connection), calls issued afterwards on both clients must succeed, and the process must survive. On UDP the result sizes around the datagram limit (65470..65500 bytes) are swept one by one. rapid draws sequences and bursts of faults per endpoint; small worker pools "
                 "(1, 2) face more dropped raw peers than they have workers. On the client side a scripted peer answers one of two pending calls with 15 kinds of faulty responses."),
     level_note="Server, clients and harness share one process per shard: a fault that kills the process is reported by the driver as a violation attributed to the case that was executing.",
     rule=("every-fault: enumerated (endpoint x applicable fault), all non-trivial; fault-sequences: rapid-drawn sequences; small-pool / client-side: enumerated. Classes: transport x fault level "
@@ -339,7 +342,7 @@ PROPS["C10"] = dict(
     pkg="c10", env=dict(VERIF_SHRINKTIME="15s"), level="exploration", design_ref="DESIGN.md section 3, C10",
     technique="rapid-generated (transport, pending calls, client timeout, peer behaviour at each point of the exchange, terminator) cases against scripted peers and real servers with a termination-time oracle, pending-entry/cancel-function accessors and a goroutine-count oracle; forced interleavings of Abort, cancellation and connection loss with registration and enqueue through verif yield points",
     level_text=("(a) A scripted peer (tcp, unix, udp, websocket) or a raw HTTP listener receives 1-4 pending calls and then answers, stays silent, closes, resets, sends part of a header or "
-                "body and stalls or closes, announces 2 GiB, sends bad checksums, short messages, error frames or strangers' answers; the client has no timeout or a short one and the calls "
+                "body and stalls or closes, announces 2 GiB, sends bad checksums, short messages, error frames or strangers' answers; the client has no timeout, a short one or one far away (30 s) and the calls "
                 "are ended by timeout, context cancellation or Abort at a generated moment. Every call must return in time (promptly after loss, abort or cancellation; by its timeout "
                 "otherwise) with an error unless answered; afterwards the transport must hold no pending-call entry and the client no cancel function, the next call must succeed, and the "
                 "goroutine count must return to its level before the case. (b) The same terminators against real servers on all eight transports with slow (gated) functions, late "
